@@ -156,6 +156,66 @@ func (q *Query) Text(withModel bool) string {
 	return b.String()
 }
 
+// Pruned returns a copy of the query without the quantified assumptions that
+// share no symbol with the goal's cone of influence (computed over the
+// quantifier-free assumptions). Dropping assumptions is sound.
+func (q *Query) Pruned() *Query {
+	syms := func(s string) []string { return symRe.FindAllString(s, -1) }
+	rel := map[string]bool{}
+	for _, s := range syms(q.Goal.S) {
+		rel[s] = true
+	}
+	type as struct {
+		t    Term
+		syms []string
+		q    bool
+	}
+	var list []as
+	for _, a := range q.Assume {
+		list = append(list, as{a, syms(a.S), strings.Contains(a.S, "(forall ") || strings.Contains(a.S, "(exists ")})
+	}
+	generic := func(s string) bool {
+		return smtBuiltins[s] || strings.HasPrefix(s, "wm") || strings.HasPrefix(s, "q.")
+	}
+	for changed := true; changed; {
+		changed = false
+		for _, a := range list {
+			if a.q {
+				continue
+			}
+			hit := false
+			for _, s := range a.syms {
+				if rel[s] && !generic(s) {
+					hit = true
+					break
+				}
+			}
+			if hit {
+				for _, s := range a.syms {
+					if !rel[s] {
+						rel[s] = true
+						changed = true
+					}
+				}
+			}
+		}
+	}
+	n := &Query{Name: q.Name, Detail: q.Detail, Goal: q.Goal, Decls: q.Decls, ExpectSat: q.ExpectSat}
+	for _, a := range list {
+		if !a.q {
+			n.Assume = append(n.Assume, a.t)
+			continue
+		}
+		for _, s := range a.syms {
+			if rel[s] && !generic(s) {
+				n.Assume = append(n.Assume, a.t)
+				break
+			}
+		}
+	}
+	return n
+}
+
 type solverSpec struct {
 	name string
 	argv func(file string, secs int, seed int) []string
@@ -314,6 +374,16 @@ func solveAll(obls []*Obligation, secs, seed int, cross bool, workers int) {
 			defer wg.Done()
 			for j := range ch {
 				r, _ := Solve(j.o.Instances[j.i], tmp, secs, seed, cross)
+				if r.Verdict == VUnknown && !j.o.ExpectSat {
+					// retry without the quantified assumptions outside the goal's cone of influence
+					p := j.o.Instances[j.i].Pruned()
+					if len(p.Assume) < len(j.o.Instances[j.i].Assume) {
+						if pr, _ := Solve(p, tmp, secs, seed, false); pr.Verdict == VUnsat {
+							pr.Solver += "+pruned"
+							r = pr
+						}
+					}
+				}
 				if r.Verdict == VUnknown && !j.o.ExpectSat {
 					// one retry with a longer budget
 					r, _ = Solve(j.o.Instances[j.i], tmp, secs*3, seed, true)
